@@ -30,6 +30,9 @@ pub enum CfgCase {
     DocMerge { doc: [u8; 5], cli: [u8; 5] },
     /// parse level: inline and front-matter defaults for keys k1,k2 on a markdown or cram base
     Parse { k1: usize, k2: usize, inline: [u8; 2], doc: [u8; 2], cram_base: bool },
+    /// C16 at the command line: key 0 = output_stream (1 = stdout, 2 = combined), key 1 = keep_crlf (1 = false, 2 = true);
+    /// layers cli / inline / doc (0 = unset) on a Markdown or Cram document, observed through `scrut test -r json`
+    Cli { key: u8, cli: u8, inline: u8, doc: u8, cram: bool },
     /// C17: a test-case configuration given as value index per key (0 = unset) in the extended alphabets
     RoundTrip { values: [usize; 8], env_b: usize },
     /// C17: document configuration subsets (shell, total_timeout, prepend, append, defaults) value indices
@@ -256,6 +259,14 @@ impl Engine for VcConfig {
                 }
             }
         }
+        for key in 0..2u8 {
+            for w in words(3, 3) {
+                v.push(CfgCase::Cli { key, cli: w[0] as u8, inline: w[1] as u8, doc: w[2] as u8, cram: false });
+            }
+            for cli in 0..3u8 {
+                v.push(CfgCase::Cli { key, cli, inline: 0, doc: 0, cram: true });
+            }
+        }
         // --- C17
         let counts = rt_counts();
         // every subset of the 8 keys with a base value each
@@ -312,7 +323,7 @@ impl Engine for VcConfig {
         Box::new(v.into_iter())
     }
     fn bound(&self, _tier: Tier) -> String {
-        "C16: every assignment of {unset,v1,v2} to the 4 layers for each of 9 keys (7 scalar keys + 2 environment variables) and jointly for every pair of keys (3^8 x 36); DocumentConfig: all 3^10 assignments of (shell,total_timeout,prepend,append,defaults.output_stream) to the layers doc and cli over the format default; parse level: inline x front-matter defaults for every key pair on Markdown and Cram base. C17: all 256 key subsets with base values; every value of every key alphabet alone and with each other key; all pairs of 17 environment values; timeout x wait product; document configs over shell/timeout/prepend/append/defaults alphabets; routes: one-liner through the Markdown parser, serde_yaml round trip, front-matter through the parser. Same bound in quick and thorough (the space is small enough to be run completely every time).".into()
+        "C16: every assignment of {unset,v1,v2} to the 4 layers for each of 9 keys (7 scalar keys + 2 environment variables) and jointly for every pair of keys (3^8 x 36); DocumentConfig: all 3^10 assignments of (shell,total_timeout,prepend,append,defaults.output_stream) to the layers doc and cli over the format default; parse level: inline x front-matter defaults for every key pair on Markdown and Cram base; command line: all 27 assignments of {unset,v1,v2} to (flag, inline, document defaults) for output_stream and keep_crlf on a Markdown document and all flag values on a Cram document through `scrut test -r json`. C17: all 256 key subsets with base values; every value of every key alphabet alone and with each other key; all pairs of 17 environment values; timeout x wait product; document configs over shell/timeout/prepend/append/defaults alphabets; routes: one-liner through the Markdown parser, serde_yaml round trip, front-matter through the parser. Same bound in quick and thorough (the space is small enough to be run completely every time).".into()
     }
     fn rule(&self, p: &str) -> String {
         if p == "C16" {
@@ -465,6 +476,55 @@ impl Engine for VcConfig {
                 }
                 res.outcome.push(("C16", hash64(&("parse", inline.iter().map(|v| *v != 0).collect::<Vec<_>>(), doc.iter().map(|v| *v != 0).collect::<Vec<_>>(), cram_base))));
             }
+            CfgCase::Cli { key: k, cli, inline, doc, cram } => {
+                use crate::cli::*;
+                let sb = Sandbox::new();
+                let (name, yaml) = if *k == 0 { ("output_stream", ["", "stdout", "combined"]) } else { ("keep_crlf", ["", "false", "true"]) };
+                let cmd = if *k == 0 { "echo out; echo err >&2" } else { "printf 'a\\r\\n'" };
+                let expectation = if *k == 0 { "out" } else { "a" };
+                let mut text = String::new();
+                let file = if *cram {
+                    text.push_str(&format!("Title\n  $ {cmd}\n  {expectation}\n"));
+                    "doc.t"
+                } else {
+                    if *doc > 0 {
+                        text.push_str(&format!("---\ndefaults:\n  {name}: {}\n---\n\n", yaml[*doc as usize]));
+                    }
+                    let cfg = if *inline > 0 { format!(" {{{name}: {}}}", yaml[*inline as usize]) } else { String::new() };
+                    text.push_str(&format!("# Title\n\n```scrut{cfg}\n$ {cmd}\n{expectation}\n```\n"));
+                    "doc.md"
+                };
+                sb.write(file, text.as_bytes());
+                let mut args = vec!["test", "--no-color", "-r", "json"];
+                match (*k, *cli) {
+                    (0, 1) => args.push("--no-combine-output"),
+                    (0, 2) => args.push("--combine-output"),
+                    (1, 1) => args.push("--no-keep-output-crlf"),
+                    (1, 2) => args.push("--keep-output-crlf"),
+                    _ => {}
+                }
+                args.push(file);
+                let run = run_scrut(&sb, &args, &[], std::time::Duration::from_secs(60));
+                // effective value: command line, then inline, then document defaults, then format default
+                let format_default = if *cram { 2 } else { 1 };
+                let effective = [*cli, *inline, *doc, format_default].into_iter().find(|v| *v != 0).unwrap();
+                // the expectation describes value 1 (stdout only / CRLF translated)
+                let want_kind = if effective == 1 { "success" } else { "malformed_output" };
+                if [*cli, *inline, *doc].iter().filter(|v| **v != 0).count() >= 1 {
+                    res.nontrivial.push(("C16", key));
+                }
+                let kinds = run.json_kinds();
+                res.outcome.push(("C16", hash64(&("cli", *k, effective, kinds.as_ref().ok().cloned()))));
+                match kinds {
+                    Ok(ks) if ks == vec![want_kind.to_string()] => {}
+                    other => res.findings.push(Finding::new(
+                        "C16",
+                        "command-line-layer-wins",
+                        format!("{name}: command line={cli} inline={inline} document={doc} on a {} document (0 unset, 1 = {}, 2 = {}) -> effective {effective}: [{want_kind}]", if *cram { "cram" } else { "markdown" }, yaml[1], yaml[2]),
+                        format!("{other:?}; exit status {:?}; stderr {}", run.status, run.stderr_str().lines().last().unwrap_or("")),
+                    )),
+                }
+            }
             CfgCase::RoundTrip { values, env_b } => {
                 let cfg = rt_config(values, *env_b);
                 let mut routes = vec![];
@@ -550,6 +610,7 @@ impl Engine for VcConfig {
             CfgCase::Merge { a1, a2, k1, k2 } => a1.iter().chain(a2.iter()).filter(|v| **v != 0).count() * 10 + (k1 != k2) as usize,
             CfgCase::DocMerge { doc, cli } => doc.iter().chain(cli.iter()).map(|v| *v as usize).sum(),
             CfgCase::Parse { inline, doc, .. } => inline.iter().chain(doc.iter()).filter(|v| **v != 0).count(),
+            CfgCase::Cli { cli, inline, doc, .. } => 1000 + (*cli + *inline + *doc) as usize,
             CfgCase::RoundTrip { values, env_b } => values.iter().filter(|v| **v != 0).count() * 100 + values.iter().sum::<usize>() + env_b,
             CfgCase::DocRoundTrip { values } => values.iter().filter(|v| **v != 0).count() * 100 + values.iter().sum::<usize>(),
         }
